@@ -165,6 +165,17 @@ def part_merge(ctx, cfg):
                                _same_tree(new, new0)),
               sig='merge', info=lambda: dict(current=cur0, new=new0, got=out,
                                              expected=exp))
+    # three levels deep: an update naming one key of a third-level dictionary
+    # keeps the sibling keys there
+    k1, k2, k3 = (ctx.int('k', -5, 5) for _ in range(3))
+    deep_cur = {'t': {'g': {'kcat': k1, 'km': k2}, 'h': {'w': 1}}}
+    deep_new = {'t': {'g': {'kcat': k3}}}
+    deep_cur0 = copy.deepcopy(deep_cur)
+    deep_out = update_merge(deep_cur, deep_new)
+    ctx.claim('C08.merge', AND(_same_tree(deep_out, {
+        't': {'g': {'kcat': k3, 'km': k2}, 'h': {'w': 1}}}),
+        _same_tree(deep_cur, deep_cur0)), sig='merge-three-levels',
+        info=lambda: dict(current=deep_cur0, new=deep_new, got=deep_out))
 
 
 def part_dict_value(ctx, cfg):
